@@ -125,7 +125,7 @@ func runC11(c *Ctx) {
 	for _, m := range []string{"AddError", "AddErrorList", "Errors"} {
 		fn := c.Method(ec, true, m)
 		if fn != nil {
-			r.Check("R11.1", FuncName(fn), "tolerates a nil receiver", fn.Pos(), toleratesNilReceiver(fn), "rows hold a nil container until they have an error or join a table; the method is reached through that nil pointer")
+			r.Check("R11.1", FuncName(fn), "tolerates a nil receiver", fn.Pos(), toleratesNilReceiver(fn) || toleratesNilReceiverSem(ix, fn, 0), "rows hold a nil container until they have an error or join a table; the method is reached through that nil pointer")
 		}
 	}
 
@@ -161,7 +161,16 @@ func runC11(c *Ctx) {
 					return
 				}
 				if good, _ := p.prove(leq(linConst(1), p.lenOf(v), "len >= 1"), ret, extra, 0); !good {
-					ok = false
+					// ... or the emptiness test is made by a helper that counts the list (nil receiver: 0)
+					viaHelper := false
+					for _, cf := range expandConds(dominatingConds(ret.Block())) {
+						if helperSaysLenPositive(cf.Cond, cf.Val, b, errs) {
+							viaHelper = true
+						}
+					}
+					if !viaHelper {
+						ok = false
+					}
 				}
 			}
 			visit(v, nil, 0)
@@ -605,6 +614,66 @@ func runC11(c *Ctx) {
 				}
 			}
 		})
+		// the same, with the container fetched (and created on demand) by a helper of the row:
+		//   r.container().AddError(err)    container: if r.EC == nil { r.EC = New() }; return r.EC
+		if !creates || !records {
+			eachInstr(fn, func(in ssa.Instruction) {
+				f := staticCallee(in)
+				if f == nil || f.Name() != "AddError" || f == fn {
+					return
+				}
+				cc := callCommon(in)
+				if len(cc.Args) != 2 || cc.Args[1] != ssa.Value(fn.Params[1]) {
+					return
+				}
+				hc, isCall := unwrap(cc.Args[0], true).(*ssa.Call)
+				if !isCall {
+					return
+				}
+				h := hc.Call.StaticCallee()
+				if h == nil || !inModule(h) || h.Blocks == nil || len(hc.Call.Args) != 1 || hc.Call.Args[0] != ssa.Value(fn.Params[0]) || len(h.Params) != 1 {
+					return
+				}
+				// every return of h is the receiver's container, and h has created it when it was nil
+				allEC := true
+				for _, ret := range returnsOf(h) {
+					for _, rv := range phiClosure(results(ret)[0]) {
+						if fl, b := loadedField(rv); fl == rowEC && b == ssa.Value(h.Params[0]) {
+							continue
+						}
+						if call, isC := rv.(*ssa.Call); isC && call.Call.StaticCallee() != nil && call.Call.StaticCallee().Name() == "NewErrorContainer" {
+							continue
+						}
+						allEC = false
+					}
+				}
+				hCreates := false
+				eachInstr(h, func(x ssa.Instruction) {
+					st, ok := x.(*ssa.Store)
+					if !ok {
+						return
+					}
+					if f2, b := storeField(st.Addr); f2 == rowEC && b == ssa.Value(h.Params[0]) {
+						if call, ok := st.Val.(*ssa.Call); ok && call.Call.StaticCallee() != nil && call.Call.StaticCallee().Name() == "NewErrorContainer" {
+							for _, cf := range expandConds(dominatingConds(x.Block())) {
+								if e, nn, ok := nilTest(cf.Cond); ok {
+									if f3, _ := loadedField(e); f3 == rowEC && (nn == 1) == cf.Val {
+										hCreates = true
+									}
+								}
+							}
+						}
+					}
+				})
+				if allEC && hCreates {
+					for _, ret := range returnsOf(fn) {
+						if instrDominates(in, ret) {
+							creates, records = true, true
+						}
+					}
+				}
+			})
+		}
 		r.Check("R11.5", FuncName(fn), "creates the row's container when it is nil, then records the error", fn.Pos(), creates && records, fmt.Sprintf("creates: %v, records: %v", creates, records))
 	}
 	// misuse of a non-cell row is reported through the row
